@@ -69,9 +69,12 @@ def run(prog, chk):
     failure_signal(prog, chk)
     output_file(prog, chk)
     same_file(prog, chk)
+    checked_paths_are_used(prog, chk)
     server_stack(prog, chk)
     from props import C06
     C06.hash_iteration(prog, chk)  # the same bytes from every front-end presupposes that no unordered iteration reaches the output
+    from props import C01
+    C01.utf8_boundary(prog, chk)  # transform_str converts the output to a String: every front-end agrees only if all input is validated up front
 
 
 # ---------------------------------------------------------------------------
@@ -439,6 +442,37 @@ def same_file(prog, chk):
         ok = refuses
         detail = "equal canonical paths lead to Err and never to the construction of Config"
     chk.ob(ok, "A13.same-file", "from_args", fa.where(), "the canonicalised input and output paths are compared; when equal the command refuses (Err) before any Config exists", "same-file refusal is missing or does not resolve both paths through the file system: " + detail)
+
+
+def checked_paths_are_used(prog, chk):
+    """the paths the command hands to transform_file are the ones the same-file refusal examined: the path fields of
+    cli::Config are never reassigned after from_args built it, and every transform_file call in the command passes
+    exactly those fields"""
+    if "cli" not in prog.features:
+        return
+    n = 0
+    writes = []
+    for body in prog.bodies.values():
+        if not body.path.startswith("svgdx::cli::") and "svgdx::cli::" not in body.path:
+            continue
+        for b, i, st in body.all_stmts():
+            if not st.get("lhs"):
+                continue
+            pl = P(st["lhs"])
+            if any(str(z) in (".output_path", ".input_path") for z in pl[1]) and "cli::Config" in (body.local_ty(pl[0]) or ""):
+                writes.append(body.where(b, st.get("line")))
+    chk.ob(not writes, "A13.same-file", "cli::Config:paths-final", "-", "the input / output path of cli::Config is fixed when from_args builds it (never reassigned)", f"the input / output path of cli::Config is reassigned after the same-file refusal examined it ({', '.join(writes)}): the file that is written is not the one that was compared with the input, so the command can overwrite its own input")
+    for body in prog.bodies.values():
+        if "svgdx::cli::" not in body.path:
+            continue
+        for (bb, t, c) in body.call_sites(R.path_is("svgdx::transform_file")):
+            n += 1
+            flds = []
+            for a in t["args"][:2]:
+                o = R.origin(body, a, carriers=dict(R.CARRIERS))
+                flds.append(str(o[1][1][-1]) if o[0] == "field" and o[1][1] else "?")
+            chk.ob(flds == [".input_path", ".output_path"], "A13.same-file", f"{body.short}:transform_file:args", body.where(bb, t.get("line")), "transform_file is called with the Config's input_path and output_path", f"transform_file is called with {flds} instead of the Config's (input_path, output_path): the written file is not the one the same-file refusal examined")
+    chk.floor("A13.same-file:args", n, 2, "transform_file call in the command")
 
 
 def server_stack(prog, chk):
